@@ -57,6 +57,13 @@ func (c *QRCase) fix() {
 	}
 }
 
+// fixBits: like fix, for cases built from Go values (a zero value with ValBits 0 is +0, never a decoding artefact).
+func (c *QRCase) fixBits() {
+	for i := range c.Rows {
+		c.Rows[i].ValBits = float64bits(c.Rows[i].Val)
+	}
+}
+
 func (c *QRCase) batches() [][]shared.LogEntry {
 	var out [][]shared.LogEntry
 	i := 0
